@@ -114,6 +114,27 @@ def make_jobs(ctx, stride=1, channels=(1, 2, 3), skip_major=(0x16,)):
     return jobs
 
 
+def focused_jobs(ctx, word, nmax=3):
+    """failing-input search after a broken correspondence: the (container, encoding, endianness) of the disagreeing script, every lossless caller
+    type, 1-2 channels, lengths beyond every internal staging buffer (2048/2730/4096/8192 items), written in one call and split"""
+    rng = ctx.rng
+    fs = [f for f in formats.writable_formats(ctx) if f.word == word] or [f for f in formats.writable_formats(ctx) if (f.word & 0x0FFFFFFF) == (word & 0x0FFFFFFF)]
+    jobs = []
+    for f in fs[:nmax]:
+        loss = G.lossless_types(f)
+        tys = sorted(loss) if loss else ["s16", "s32", "f32", "f64"]
+        for ty in tys:
+            for ch in sorted(set(min(c, f.maxch) for c in (1, 2))):
+                for n in (2049 // ch + 1, 2731, 4097, 8193):
+                    lowzero = loss[ty] if loss else 0
+                    unit = (not loss) or f.codec in (0x10, 0x11)
+                    vals = gen_values(rng, ty, n * ch, lowzero, unit=unit and ty in ("f32", "f64"))
+                    j = Job(f, ch, 8000, n, ty, vals, lowzero if loss else None)
+                    j.garbage = 0
+                    jobs.append(j)
+    return jobs
+
+
 def run_jobs(ctx, jobs, updates=True):
     """returns list of result dicts with everything the property predicates need"""
     rng = ctx.rng
